@@ -265,8 +265,45 @@ def rule_r12(chk, facts):
     return n
 
 
+def rule_r13(chk, facts):
+    chk.rule('C09-R13', 'a unit static that takes over a parameter of the current call (byte order, operand size, mode) is '
+             'not assigned under the one-time initialisation guard of the function (a test of a static pointer for NULL): '
+             'it would keep the value of the first call - e.g. the byte order of the first target that used ADR/FDB',
+             min_instances=20)
+    P = facts.program('asl')
+    n = 0
+    for f in P.all_funcs():
+        if f.entry is None:
+            continue
+        params = {('p', q['name']) for q in f.params if not q['type'].get('ptr')}
+        if not params:
+            continue
+        for b, i, ln, m in f.nodes():
+            if not (is_assign(m) and m[1] == '=' and nocast(m[2])[0] == 'gs' and nocast(m[3]) in params):
+                continue
+            n += 1
+
+            def once_guard(l):
+                if l is None or l[0] not in ('T', 'F'):
+                    return False
+                for a in atoms(l[1], l[0] == 'T'):
+                    if a[0] == 'z' and isinstance(a[1], tuple) and a[1][0] in ('gs', 'ls'):
+                        gi = (P.ginfo(f, 'gs', a[1][1]) or {}) if a[1][0] == 'gs' else {'type': f.locals.get(a[1][1]) or {'ptr': True}}
+                        if (gi.get('type') or {}).get('ptr'):
+                            return True
+                return False
+            under, w = f.guarded(b, i, once_guard)
+            chk.ob('C09-R13', '%s:%s:%s' % (f.unit.name, f.name, show(nocast(m[2]))), not under, f.loc(ln),
+                   'assigned on every call' if not under else
+                   '%s is assigned from the parameter %s only while the one-time set-up of %s() runs: later calls with another '
+                   'value (a target of the other byte order in the same run) keep the first one' % (
+                       show(nocast(m[2])), show(nocast(m[3])), f.name))
+    return n
+
+
 def run(chk, facts, info):
     carry_pair_rule(chk, facts, 'C09-R11')
+    rule_r13(chk, facts)
     rule_r12(chk, facts)
     from . import pc_snapshot
     pc_snapshot.run(chk, facts, 'C09-R10', unit_ok=lambda u: u.endswith('pseudo.c') or u in ('asmcode.c', 'asmallg.c'), min_instances=2)
